@@ -265,3 +265,106 @@ pub fn gc_drive(args: &[String]) {
     }
     w.finish();
 }
+
+// ------------------------------------------------------------------------------------------ C17
+fn residue_json(vm: &Vm<Host>) -> J {
+    let r = vm.runtime_data.verif_residue();
+    json!({"stack": r.value_stack_len, "calls": r.call_stack_len, "globals": r.globals_len, "objects": r.objects,
+           "upvals": r.open_upvalues, "allocated": r.allocated, "next_gc": r.next_gc})
+}
+
+fn life_programs(rng: &mut Rng) -> Vec<(String, P, u64)> {
+    let natives = vec![Native { name: "fail0".into(), arity: 0, beh: "fail", types: vec![] },
+                       Native { name: "log1".into(), arity: 1, beh: "log", types: vec!["value"] }];
+    let mk = |main: Vec<C>, fns: Vec<F>| {
+        let mut all = vec![F { name: "main".into(), params: vec![], body: main }];
+        all.extend(fns);
+        P { fns: all, natives: natives.clone(), imports: vec![] }
+    };
+    let f = |name: &str, params: &[&str], body: Vec<C>| F { name: name.into(), params: params.iter().map(|x| x.to_string()).collect(), body };
+    let mut v = vec![];
+    v.push(("ok-generated".to_string(), Gen::new(rng, Profile::named("basic")).program(), 100_000));
+    v.push(("ok-closures".to_string(), Gen::new(rng, Profile::named("closures")).program(), 100_000));
+    v.push(("ok-alloc".to_string(), Gen::new(rng, Profile::named("alloc")).program(), 3_000_000));
+    v.push(("timeout".to_string(), mk(vec![setv("w", int(1)), card("While", vec![read("w"), block(vec![setg("g", read("w"))])])], vec![]), 500));
+    v.push(("call-overflow".to_string(), mk(vec![call("r", vec![int(1)])], vec![f("r", &["x"], vec![card("Return", vec![call("r", vec![read("x")])])])]), 100_000));
+    v.push(("stack-overflow".to_string(), mk(vec![repeat("i", int(400), block(vec![call("one", vec![])]))], vec![f("one", &[], vec![card("Return", vec![int(1)])])]), 100_000));
+    v.push(("native-error".to_string(), mk(vec![setg("a", int(1)), native("fail0", vec![])], vec![]), 100_000));
+    v.push(("type-error".to_string(), mk(vec![setg("a", strlit("x")), card("GetProperty", vec![int(1), int(2)])], vec![]), 100_000));
+    v.push(("leaves-values".to_string(), mk(vec![call("one", vec![]), call("one", vec![]), setv("l", card("CreateTable", vec![])), setg("t", read("l"))],
+                                             vec![f("one", &[], vec![card("Return", vec![strlit("left on the stack")])])]), 100_000));
+    v
+}
+
+/// life-drive --seed S --n N --out FILE : random histories of runs / clears on one VM
+pub fn life_drive(args: &[String]) {
+    let seed = arg_num(args, "--seed", 1);
+    let n = arg_num(args, "--n", 20) as usize;
+    let len = arg_num(args, "--len", 12) as usize;
+    let out = arg_val(args, "--out").expect("--out");
+    let start = arg_num(args, "--start-case", 0) as usize;
+    let append = arg_num(args, "--append", 0) == 1;
+    let mut w = TraceWriter::open(out, append, 60_000);
+    for id in start..n {
+        let mut rng = Rng::new(seed.wrapping_mul(7_919_117).wrapping_add(id as u64));
+        let progs = life_programs(&mut rng);
+        let compiled: Vec<_> = progs.iter().map(|(_, p, _)| cao_lang::compiler::compile(p.to_module(), None)).collect();
+        if compiled.iter().any(|c| c.is_err()) {
+            continue;
+        }
+        let compiled: Vec<_> = compiled.into_iter().map(|c| c.unwrap()).collect();
+        w.line(json!({"e": "Reset", "case": id}));
+        // one VM for the whole history; every program has its own instruction budget
+        let mut vm = make_vm(&progs[0].1, &RunCfg::default());
+        let newres = {
+            let fresh = make_vm(&progs[0].1, &RunCfg::default());
+            residue_json(&fresh)
+        };
+        // the last history of a file repeats one fine program many times
+        let long = id % 5 == 4;
+        let steps = if long { 300 } else { len };
+        let fixed = rng.below(3);
+        for _ in 0..steps {
+            if !long && rng.chance(1, 4) {
+                w.begin(id, &json!({"e": "Clear"}));
+                let r = guarded(|| {
+                    vm.clear();
+                    residue_json(&vm)
+                });
+                match r {
+                    Ok(res) => w.end(json!({"e": "Clear", "res": res, "newres": newres})),
+                    Err(msg) => {
+                        w.end(json!({"e": "Panic", "msg": msg}));
+                        break;
+                    }
+                }
+                continue;
+            }
+            let pi = if long { fixed } else { rng.below(progs.len()) };
+            let (name, p, budget) = &progs[pi];
+            w.begin(id, &json!({"e": "Run", "p": name}));
+            let r = guarded(|| {
+                vm.max_instr = *budget;
+                vm.get_aux_mut().log.borrow_mut().clear();
+                let res = vm.run(&compiled[pi]);
+                let mut o = observation(&vm, &compiled[pi], &res);
+                o["trace"] = json!([]);
+                let here = (digest(&o), residue_json(&vm));
+                let mut fresh = make_vm(p, &RunCfg { max_instr: *budget });
+                let fres = fresh.run(&compiled[pi]);
+                let mut fo = observation(&fresh, &compiled[pi], &fres);
+                fo["trace"] = json!([]);
+                (here, (digest(&fo), residue_json(&fresh)), o["st"].clone(), o["kind"].clone())
+            });
+            match r {
+                Ok(((out, res), (fout, fres), st, kind)) => w.end(json!({"e": "Run", "p": name, "out": out, "res": res, "fout": fout, "fres": fres,
+                                                                            "st": st, "kind": kind})),
+                Err(msg) => {
+                    w.end(json!({"e": "Panic", "msg": msg}));
+                    break;
+                }
+            }
+        }
+    }
+    w.finish();
+}
